@@ -42,7 +42,65 @@ const (
 	vPeerAddr    = "node1.example:13001"
 )
 
+// vGateFSM is the FSM handed to raft: the real FSM, except that Persist of a snapshot can be held back
+// by the harness.  raft calls FSM.Snapshot on the goroutine that applies entries and Persist later on
+// another one; entries that are applied in between are the window the harness opens with the gate.
+type vGateFSM struct {
+	*FSM
+	mu    sync.Mutex
+	gate  chan struct{} // nil: not armed
+	taken chan struct{}
+}
+
+type vGateSnap struct {
+	raft.FSMSnapshot
+	g *vGateFSM
+}
+
+func (g *vGateFSM) Snapshot() (raft.FSMSnapshot, error) {
+	s, err := g.FSM.Snapshot()
+	if err != nil {
+		return s, err
+	}
+	return &vGateSnap{s, g}, nil
+}
+
+func (s *vGateSnap) Persist(sink raft.SnapshotSink) error {
+	s.g.mu.Lock()
+	gate, taken := s.g.gate, s.g.taken
+	s.g.mu.Unlock()
+	if gate != nil {
+		select {
+		case taken <- struct{}{}:
+		default:
+		}
+		<-gate
+	}
+	return s.FSMSnapshot.Persist(sink)
+}
+
+// snapshotWith forces a raft snapshot and runs f after FSM.Snapshot returned and before Persist starts.
+func (n *vNode) snapshotWith(f func()) error {
+	g := n.gate
+	g.mu.Lock()
+	g.gate, g.taken = make(chan struct{}), make(chan struct{}, 1)
+	gate, taken := g.gate, g.taken
+	g.mu.Unlock()
+	fut := n.raft.Snapshot()
+	select {
+	case <-taken:
+		f()
+	case <-time.After(30 * time.Second):
+	}
+	close(gate)
+	g.mu.Lock()
+	g.gate = nil
+	g.mu.Unlock()
+	return fut.Error()
+}
+
 type vNode struct {
+	gate     *vGateFSM
 	dir      string
 	raft     *raft.Raft
 	fsm      *FSM
@@ -118,7 +176,8 @@ func vStartNodeAs(dir string, bootstrap, follower bool) (*vNode, error) {
 		return nil, err
 	}
 	_, trans := raft.NewInmemTransport(raft.ServerAddress(vPeerAddr))
-	r, err := raft.NewRaft(config, fsm, logcache, logStore, fss, trans)
+	gate := &vGateFSM{FSM: fsm}
+	r, err := raft.NewRaft(config, gate, logcache, logStore, fss, trans)
 	if err != nil {
 		return nil, err
 	}
@@ -134,7 +193,7 @@ func vStartNodeAs(dir string, bootstrap, follower bool) (*vNode, error) {
 	}
 	h := api.NewHTTP(ircServer, r, ircStore, outputStream, &rafthttp.HTTPTransport{}, *network, *networkPassword, dir, vPeerAddr, *useProtobuf, 3)
 	fsm.ReplaceState = h.ReplaceState
-	n := &vNode{dir: dir, raft: r, fsm: fsm, api: h, logStore: logStore, fss: fss, trans: trans}
+	n := &vNode{dir: dir, raft: r, fsm: fsm, api: h, logStore: logStore, fss: fss, trans: trans, gate: gate}
 	if follower {
 		return n, nil
 	}
